@@ -1283,6 +1283,10 @@ htp_status_t htp_connp_RES_IDLE(htp_connp_t *connp) {
         if (connp->out_tx == NULL) {
             return HTP_ERROR;
         }
+        // The new transaction has taken the place of whatever the request side was working
+        // on, and its body counters have been reset: the request parser must not carry on
+        // in its old state, not even when one of the allocations below fails.
+        connp->in_state = htp_connp_REQ_FINALIZE;
         connp->out_tx->parsed_uri = htp_uri_alloc();
         if (connp->out_tx->parsed_uri == NULL) {
             return HTP_ERROR;
@@ -1296,7 +1300,6 @@ htp_status_t htp_connp_RES_IDLE(htp_connp_t *connp) {
             return HTP_ERROR;
         }
 
-        connp->in_state = htp_connp_REQ_FINALIZE;
 #ifdef HTP_DEBUG
         fprintf(stderr, "picked up response w/o request");
 #endif
